@@ -195,6 +195,10 @@ def download(
         except FileNotFoundError as err:
             _not_found(err.filename)
             return_code = 1
+        except OSError as err:
+            # E.g. an identifier that is too long for a file name.
+            click.echo(f"{_('Error: Failed to download license.')} {err}")
+            return_code = 1
         else:
             _successfully_downloaded(destination)
     sys.exit(return_code)
